@@ -22,7 +22,7 @@ BUILDER_ORACLE = {'unit': 'builder', 'mount': 'src/compiler/builder.rs', 'mod': 
 # obligations of the builder unit that carry C20 (span recording) rather than C10 (widths)
 C20_BUILDER = (r'^builder/BytecodeBuilder::(emit|emit_jump|emit_jump_if_true|emit_jump_if_false|emit_jump_if_nullish|'
                r'emit_jump_if_not_nullish|emit_jump_to|emit_halt|set_span|clear_span|new|finish|patch_jump|patch_jump_to|'
-               r'patch_try_targets|patch_iter_try_target|current_offset|emit_load_string)/|^builder/BytecodeChunk::|^builder/lemma::lemma_lookup|^(lexer_pos|bytecode_srcmap|lexer_spans)/')
+               r'patch_try_targets|patch_iter_try_target|current_offset|emit_load_string)/|^builder/BytecodeChunk::|^builder/lemma::lemma_lookup|^(lexer_pos|bytecode_srcmap|lexer_spans)/|^induction/lemma::lemma_walk')
 C10_EXCLUDE = r'#(span_recorded|span_inherited|earlier_spans_kept)$|::(set_span|clear_span)/'
 
 PROPS = {
@@ -86,7 +86,7 @@ PROPS = {
         'not_carried': 'that compile_* callers respect the allocator protocol; add_string/add_number de-duplication maps',
     },
     'C20': {
-        'verus': [BUILDER_VERUS],
+        'verus': [BUILDER_VERUS, {'unit': 'induction', 'rlimit': 20}],
         'kani': [
             {'unit': 'lexer_pos', 'mount': 'src/lexer.rs', 'mod': 'verif_kani_lexer_pos',
              'harnesses': {
@@ -112,6 +112,7 @@ PROPS = {
                             'obligations': ['lexer_spans/Lexer::next_token/ensures#line_column_consistent_with_source',
                                             'lexer_spans/Lexer::rescan_template_continuation/ensures#line_column_consistent_with_source',
                                             'lexer_spans/Lexer::rescan_as_regexp/ensures#line_column_consistent_with_source',
+                                            'lexer_spans/Lexer::restore/ensures#token_stream_unchanged_by_lookahead',
                                             'lexer_spans/Lexer::token_span/ensures#byte_range_inside_source',
                                             'lexer_spans/Lexer::token_span/ensures#starts_never_move_backwards']}],
         'obl_filter': C20_BUILDER,
@@ -119,7 +120,7 @@ PROPS = {
         'assumptions': [
             'span-recording layer only: parser token->AST spans, compile_* calling set_span with the node being compiled, build_stack_trace and error formatting are NOT verified',
             'fewer than 2^32 lines/columns, byte offsets below 2^62 (assumed in the advance harness)',
-            'induction over a whole token stream (line = 1 + terminators before token start) is argued from the machine-checked advance step, not machine-checked',
+            'line = 1 + terminators consumed, column = 1 + characters since the last terminator: induction over the advance step contract is a machine-checked pure-spec Verus lemma; the transcription of the Kani postcondition is the unchecked link',
             'Option::is_none_or: assumed std contract (assume_specification)',
         ],
         'explanation': 'Verus: BytecodeBuilder::emit records the span current at emission (lookup(source_map, index).start == current_span.start), '
@@ -128,6 +129,8 @@ PROPS = {
         'not_carried': 'parser spans, set_span discipline in compile_*, stack-trace frames and function names',
     },
     'C13': {
+        'verus': [{'unit': 'induction', 'rlimit': 20}],
+        'obl_exclude': r'^induction/lemma::lemma_walk',
         'kani': [{'unit': 'gc_bitmask', 'mount': 'src/gc.rs', 'mod': 'verif_kani_gc_bitmask',
                   'harnesses': BITMASK_HARNESSES, 'replay_test': 'verif_replay_gc_bitmask'},
                  {'unit': 'gc_handles', 'mount': 'src/gc.rs', 'mod': 'verif_kani_gc_handles',
@@ -139,7 +142,7 @@ PROPS = {
         'assumptions': [
             'only the mark-bit layer is under contract: Space::mark / sweep / pool_object / Gc clone+drop / Guard are NOT verified',
             'callers pass index_in_chunk = index % CHUNK_CAPACITY (coupling harness) and len = chunk.len() <= CHUNK_CAPACITY (Vec::with_capacity discipline in alloc_internal: unverified)',
-            'exactness of the whole iter_unmarked enumeration follows from the machine-checked init + step contracts by induction on pos (3-line argument, not machine-checked)',
+            'exactness of the whole iter_unmarked enumeration: induction over the init + step contracts is machine-checked as a pure-spec Verus lemma (verus/induction_pre.rs); the transcription of the Kani postconditions into its hypothesis is the unchecked link',
         ],
         'explanation': 'Kani contracts (assume-pre / call real fn / assert-post) on ChunkBitmask::{get,set,clear,default,iter_unmarked} '
                        'and UnmarkedIter::next, over all 2^256 masks and all indices; loop in next() unwound to its structural bound 5 (<7) with unwinding assertion.',
